@@ -41,7 +41,7 @@ for p in props:
           "engine":"smir",
           "level_claimed":{"category":"model_checking","text":"bounded symbolic execution of the rustc MIR of the real entry points from a symbolic pre-state (one transaction = one inductive step); every path's negated claim is discharged by z3 over all integer values within the stated envelope and counts: "+DONE[p['id']],"design_ref":"DESIGN.md section 5 (%s)"%p['id']},
           "level_note":"trusted: rustc MIR, SMIR interpreter and summaries (DESIGN 3.3), environment model (3.4), z3; bounds, assumptions and outside-claim list are written to the evidence file on every run",
-          "technique":"symbolic execution of rustc MIR + SMT (z3, Int theory with division lemmas), counterexamples replayed on the real code"})
+          "technique":"symbolic execution of the rustc MIR of the real entry points, regenerated from /repo on every run; every claim on every path is a z3 query (Int theory, division by lemma) decided for all integers within the stated envelope; counterexamples are replayed on the compiled contracts before a VIOLATION is reported, and path models of proved claims are replayed as encoder validation"})
 m={"version":1,"setup_cmd":"./setup.sh",
    "hooks":{"guard":"krp_staking_verif","enable":"no source hooks are needed (MIR exposes private functions; replay uses public entry points)","baseline_off_cmd":"cd /repo && cargo test --workspace --no-fail-fast --offline","source_commits":[],"add_only":True},
    "engines":[{"name":"smir","path":"/verif/smir","serves_properties":sorted(DONE),"kind_free_text":"symbolic executor for rustc MIR (-Zunpretty=mir) over z3 Int theory, written for this task; Rust replay runner in /verif/replay"}],
